@@ -1193,3 +1193,9 @@ func (c *Ctx) ExitsUnder(fn *ssa.Function, idx int) []string {
 	sort.Strings(out)
 	return out
 }
+
+// WithEdge returns a copy of g whose edge matcher is replaced by f.
+func (g Gate) WithEdge(f func(Fact) bool) Gate {
+	g.Edge = f
+	return g
+}
